@@ -5,6 +5,7 @@ import SecsModel.Props.C16
 #print axioms SecsModel.Props.C16.block_roundtrip
 #print axioms SecsModel.Props.C16.corruption_rejected
 #print axioms SecsModel.Props.C16.decode_canonical
+#print axioms SecsModel.Props.C16.decode_injective
 #print axioms SecsModel.Proofs.SecsIHdr.encode_decode
 #print axioms SecsModel.Proofs.SecsI.decode_eq
 #print axioms SecsModel.Proofs.SecsI.encode_eq
